@@ -398,3 +398,10 @@ impl Spreadable for bool {
         Err(TransformError::Unspreadable(PrimitiveKind::Boolean))
     }
 }
+
+#[cfg(all(kani, feature = "verif-hooks"))]
+mod verif_kani {
+    #[allow(unused_imports)]
+    use super::*;
+    include!(concat!(env!("ROOC_VERIF_KANI_DIR"), "/arith.rs"));
+}
